@@ -20,6 +20,7 @@ import (
 	"sync"
 	"sync/atomic"
 	"time"
+	_ "time/tzdata"
 
 	"github.com/6tail/lunar-go/simrt"
 	"verif/harness/ops"
@@ -55,6 +56,13 @@ func oracleMsOf(call string) int64 {
 
 func setClock(c spec.Clock) {
 	time.Local = time.FixedZone(fmt.Sprintf("SIM%+d", c.ZoneS), c.ZoneS)
+	if c.Zone != "" {
+		loc, err := time.LoadLocation(c.Zone) // from the embedded time/tzdata
+		if err != nil {
+			fatal("zone %q: %v", c.Zone, err)
+		}
+		time.Local = loc
+	}
 	if c.Now == "" {
 		return
 	}
